@@ -176,21 +176,8 @@ func checkRingOrigin(w *World, r *Report, rule string) {
 			}
 		}
 		if ok {
-			// ascending unit stride from 0
-			ph, isPhi := stripConv(idxPhi).(*ssa.Phi)
-			asc := false
-			if isPhi && len(ph.Edges) == 2 {
-				var init, step bool
-				for _, e := range ph.Edges {
-					if constStr(e) == "0" {
-						init = true
-					}
-					if b, isB := e.(*ssa.BinOp); isB && b.Op == token.ADD && b.X == ssa.Value(ph) && constStr(b.Y) == "1" {
-						step = true
-					}
-				}
-				asc = init && step
-			}
+			// ascending unit stride from 0 (index loop: phi(0, i+1); range loop: phi(-1, v)+1)
+			asc := ascendingFromZero(stripConv(idxPhi))
 			if !asc {
 				ok, detail = false, "the transfer does not run i = 0,1,2,...: elements come out in another order"
 			}
@@ -210,4 +197,41 @@ func checkRingOrigin(w *World, r *Report, rule string) {
 		}
 		r.Check(okH, rule, "RingBuffer.PopN:advances-head", "head advances by the number of elements handed out", site, "head does not move by the popped count: elements are popped twice or skipped")
 	}
+}
+
+
+// ascendingFromZero recognises the induction variable of `for i := 0; ...; i++` and of `for i := range x`.
+func ascendingFromZero(v ssa.Value) bool {
+	switch x := v.(type) {
+	case *ssa.Phi:
+		if len(x.Edges) != 2 {
+			return false
+		}
+		var init, step bool
+		for _, e := range x.Edges {
+			if constStr(e) == "0" {
+				init = true
+			}
+			if b, ok := e.(*ssa.BinOp); ok && b.Op == token.ADD && b.X == ssa.Value(x) && constStr(b.Y) == "1" {
+				step = true
+			}
+		}
+		return init && step
+	case *ssa.BinOp:
+		ph, ok := x.X.(*ssa.Phi)
+		if !ok || x.Op != token.ADD || constStr(x.Y) != "1" || len(ph.Edges) != 2 {
+			return false
+		}
+		var init, step bool
+		for _, e := range ph.Edges {
+			if constStr(e) == "-1" {
+				init = true
+			}
+			if e == ssa.Value(x) {
+				step = true
+			}
+		}
+		return init && step
+	}
+	return false
 }
